@@ -355,6 +355,23 @@ def method(I, ctx, fr, s, name, args, kwargs, node):
     if name == 'format':
         return brace_format(I, ctx, s, a, kwargs, None, node)
     if name == 'encode':
+        errs = None
+        if len(a) >= 2:
+            errs = a[1].const() if hasattr(a[1], 'const') else None
+        elif 'errors' in kwargs and hasattr(kwargs['errors'], 'const'):
+            errs = kwargs['errors'].const()
+        if K is VStr and errs in ('backslashreplace', 'replace', 'ignore', 'xmlcharrefreplace', 'namereplace'):
+            # a lossy error handler: total; the result decodes (strictly) to SAN(s), and SAN is the identity on
+            # encodable text (A-enc)
+            san = Z.func('str_sanitised:%s' % errs, Z.Str, Z.Str)(s.z)
+            r = Z.func('str_encode', Z.Str, Z.Str)(san)
+            ctx.assume(Z.func('bytes_decode', Z.Str, Z.Str)(r) == san)
+            ctx.assume(Z.func('bytes_decodable', Z.Str, Z.Bool)(r))
+            ctx.assume((z3.Length(r) == 0) == (z3.Length(s.z) == 0))
+            c = Z.simp(s.z)
+            if z3.is_string_value(c) and all(ord(ch) < 128 for ch in c.as_string()):
+                return VBytes(c.as_string())
+            return VBytes(r)
         if K is VStr:
             f = Z.func('str_encode', Z.Str, Z.Str)
             r = f(s.z)
